@@ -234,7 +234,7 @@ func writeRegion(u *gen.Unit, off int) string {
 }
 
 func runC13(c *mon.Ctx) {
-	per := c.Pick(8000, 150000)
+	per := c.Pick(8000, 300000)
 	for ki, kind := range kindsAll {
 		for k := int64(0); k < per; k++ {
 			idx := int64(ki)*per + k
